@@ -105,44 +105,37 @@ Theorem kmeans_not_worse_than_initial : forall st d k X labels delta m,
 Proof. intros st d k X labels delta m Hk Hl Hr. apply kmeans_vs_initial; [exact Hk|now split]. Qed.
 Print Assumptions kmeans_not_worse_than_initial.
 
-(* (K9) the returned J (best J of a non-final iteration; None = inf) is an
-   upper bound of the inertia of the returned solution ... *)
-Theorem kmeans_J_bounds_returned_inertia : forall st d k X labels maxiter delta j,
-  (0 < k)%nat -> length labels = length X -> Forall (fun q => (q < k)%nat) labels ->
-  km_J (kmeans st d k X labels maxiter delta) = Some j ->
-  Wk d X (kmeans st d k X labels maxiter delta) <= j.
-Proof. intros st d k X labels maxiter delta j Hk Hl Hr. apply kmeans_J_bounds; [exact Hk|now split]. Qed.
-Print Assumptions kmeans_J_bounds_returned_inertia.
+(* (K9) the returned J, since /repo 6270706 (replaces the former
+   kmeans_J_is_final_inertia_refuted / kmeans_J_stale_refuted): in EVERY run -
+   the `else` of the outer `for` is always taken, also when the inner loop broke
+   on convergence in its first iteration - J is the inertia of the returned
+   labels w.r.t. the returned centres, "the final value of the inertia
+   criterion"; with K7 (labels in range, one per item) this is
+   np.sum((X - centers_output[z_output]) ** 2). *)
+Theorem kmeans_J_is_final_inertia : forall st d k X labels maxiter delta,
+  km_J (kmeans st d k X labels maxiter delta)
+  = wcss d X (km_labels (kmeans st d k X labels maxiter delta)) (km_centers (kmeans st d k X labels maxiter delta)).
+Proof. intros. apply kmeans_J_is_inertia. Qed.
+Print Assumptions kmeans_J_is_final_inertia.
 
-(* ... but it is NOT "the final value of the inertia criterion" the docstring
-   promises: started from the optimal labelling of {0,1,5,6} the loop breaks in
-   its first iteration before bJ is ever assigned, and inf is returned
-   (finding kmeans/returned-J/converged-in-first-iteration); when it does not
-   break at once the value is that of an earlier iteration. *)
+(* ... hence the returned J itself never increases with maxiter and never
+   exceeds the inertia of the initial labelling *)
+Theorem kmeans_J_more_iters_not_worse : forall st d k X labels delta m m',
+  (0 < k)%nat -> (1 <= m)%nat -> (m <= m')%nat ->
+  km_J (kmeans st d k X labels m' delta) <= km_J (kmeans st d k X labels m delta).
+Proof. intros st d k X labels delta m m' Hk H1 H2. rewrite !kmeans_J_is_inertia. now apply kmeans_mono. Qed.
+Print Assumptions kmeans_J_more_iters_not_worse.
+
+(* the former witnesses of the defect (J = inf, J = 6 for a solution of inertia 1) *)
 Definition km_w1 : list vec := [[0]; [1]; [5]; [6]].
-Theorem kmeans_J_is_final_inertia_refuted : forall st,
-  exists d k X labels maxiter delta,
-    (0 < k)%nat /\ length labels = length X /\ Forall (fun q => (q < k)%nat) labels /\ (1 <= maxiter)%nat /\
-    km_J (kmeans st d k X labels maxiter delta) = None /\
-    Wk d X (kmeans st d k X labels maxiter delta) == 1.
-Proof. intros st. exists 1%nat, 2%nat, km_w1, [0;0;1;1]%nat, 5%nat, (1#10000).
-  split; [lia|]. split; [reflexivity|]. split; [repeat constructor|]. split; [lia|].
-  split; destruct st; vm_compute; reflexivity. Qed.
-Print Assumptions kmeans_J_is_final_inertia_refuted.
-
-Theorem kmeans_J_stale_refuted : forall st,
-  exists d k X labels maxiter delta j,
-    (0 < k)%nat /\ length labels = length X /\ Forall (fun q => (q < k)%nat) labels /\ (1 <= maxiter)%nat /\
-    km_J (kmeans st d k X labels maxiter delta) = Some j /\
-    ~ j == Wk d X (kmeans st d k X labels maxiter delta).
-Proof. intros st. exists 1%nat, 2%nat, km_w1, [0;0;0;1]%nat, 5%nat, (1#10000), (486 # 81).
-  split; [lia|]. split; [reflexivity|]. split; [repeat constructor|]. split; [lia|].
-  split; [destruct st; vm_compute; reflexivity|]. destruct st; vm_compute; discriminate. Qed.
-Print Assumptions kmeans_J_stale_refuted.
+Example kmeans_J_former_witnesses :
+  km_J (kmeans true 1 2 km_w1 [0;0;1;1]%nat 5 (1#10000)) == 1 /\
+  km_J (kmeans true 1 2 km_w1 [0;0;0;1]%nat 5 (1#10000)) == 1.
+Proof. split; vm_compute; reflexivity. Qed.
 
 (* non-vacuity: concrete runs *)
 Example kmeans_run_1 :
-  kmeans_agrees true 1 2 km_w1 [0;0;0;1]%nat 1 (1#10000) [[1#2]; [11#2]] [0;0;1;1]%nat (Some 6) = true.
+  kmeans_agrees true 1 2 km_w1 [0;0;0;1]%nat 1 (1#10000) [[1#2]; [11#2]] [0;0;1;1]%nat 1 = true.
 Proof. vm_compute. reflexivity. Qed.
 Example kmeans_run_empty_cluster :
   qmat_eqb (km_centers (kmeans true 1 3 km_w1 [0;0;0;0]%nat 1 0)) [[3]; [3]; [3]] = true /\
@@ -239,7 +232,7 @@ Print Assumptions split_spec_partial.
    (finding split/cluster-count/tied-heights). *)
 Definition path4 : list (nat * nat) := [(0,1);(1,0);(1,2);(2,1);(2,3);(3,2)]%nat.
 Theorem split_gives_k_clusters_refuted :
-  exists d n G feat k p h u, ward true d n G feat = Some (p, h) /\ (1 <= k <= n)%nat /\
+  exists d n G feat k p h u, ward d n G feat [] = Some (p, h) /\ (1 <= k <= n)%nat /\
     ward_check d n G feat p h = true /\ split p h k = Some u /\ S (maxl u) <> k.
 Proof. exists 1%nat, 4%nat, path4, [[0];[1];[2];[3]], 3%nat,
          [4;4;5;5;6;6;6]%nat, [0;0;0;0;1#2;1#2;5], [0;1;2;3]%nat.
@@ -251,29 +244,35 @@ Print Assumptions split_gives_k_clusters_refuted.
    cost 0 (identical items): the threshold is 0 and no node is below it
    (finding split/raises/zero-cost-merge). *)
 Theorem split_defined_refuted :
-  exists d n G feat k p h, ward true d n G feat = Some (p, h) /\ (1 <= k <= n)%nat /\ split p h k = None.
+  exists d n G feat k p h, ward d n G feat [] = Some (p, h) /\ (1 <= k <= n)%nat /\ split p h k = None.
 Proof. exists 1%nat, 4%nat, path4, [[0];[0];[5];[9]], 4%nat, [4;4;5;5;6;6;6]%nat, [0;0;0;0;0;8;57].
   split; [vm_compute; reflexivity|]. split; [lia|]. vm_compute; reflexivity. Qed.
 Print Assumptions split_defined_refuted.
 
-(* (H6) REFUTED: `ward` is not total on symmetric graphs under a NumPy that
-   rejects int() of a 1-element array (int1 = false, the installed one): the
-   merged pair is also joined by the reverse edge (finding
-   ward/raises/int-of-1-element-array); with int1 = true the same input works. *)
+(* (H6) since /repo 6608ba6 (`...flatnonzero(...)[0]`) the former witness of
+   ward_total_refuted - a merged pair that is also joined by the reverse edge -
+   is handled and yields a proper, cheapest-first dendrogram.  Totality of
+   `ward` for ALL symmetric graphs is NOT proved (it needs the invariant of the
+   edge/incidence state machine: incidence lists = live edges by endpoint, one
+   live edge left per component merge); the harness checks per case that
+   neither the implementation nor the model raises. *)
 Definition tri : list (nat * nat) := [(0,1);(0,2);(1,2);(1,0);(2,0);(2,1)]%nat.
-Theorem ward_total_refuted :
-  exists d n G feat, ward false d n G feat = None /\
-    exists p h, ward true d n G feat = Some (p, h) /\ ward_check d n G feat p h = true.
-Proof. exists 2%nat, 3%nat, tri, [[6;6];[0;0];[6;0]]. split; [vm_compute; reflexivity|].
-  exists [3;4;3;4;4]%nat, [0;0;0;18;48]. split; vm_compute; reflexivity. Qed.
-Print Assumptions ward_total_refuted.
+Example ward_reverse_edge_handled :
+  ward 2 3 tri [[6;6];[0;0];[6;0]] [] = Some ([3;4;3;4;4]%nat, [0;0;0;18;48]) /\
+  ward_check 2 3 tri [[6;6];[0;0];[6;0]] [3;4;3;4;4]%nat [0;0;0;18;48] = true.
+Proof. split; vm_compute; reflexivity. Qed.
+
+(* list_of_subtrees since /repo 98e9feb: no leaf is listed twice in a forest with several trees *)
+Example list_of_subtrees_former_witness :
+  list_of_subtrees 4 [5;4;4;5;4;5]%nat = [[2;1]; [3;0]]%nat.
+Proof. vm_compute. reflexivity. Qed.
 
 (* non-vacuity of the hypotheses of H3a-H3d: a concrete proper Ward dendrogram
    (the implementation's output for the path 0-1-2-3 with features 0,1,5,6) *)
 Example proper_dendrogram_exists :
   ProperDendrogram 1 4 path4 [[0];[1];[5];[6]] [4;4;5;5;6;6;6]%nat [0;0;0;0;1#2;1#2;26] /\
   CheapestMerges 1 4 path4 [[0];[1];[5];[6]] [4;4;5;5;6;6;6]%nat [0;0;0;0;1#2;1#2;26] /\
-  ward true 1 4 path4 [[0];[1];[5];[6]] = Some ([4;4;5;5;6;6;6]%nat, [0;0;0;0;1#2;1#2;26]) /\
+  ward 1 4 path4 [[0];[1];[5];[6]] [] = Some ([4;4;5;5;6;6;6]%nat, [0;0;0;0;1#2;1#2;26]) /\
   partition [4;4;5;5;6;6;6]%nat [0;0;0;0;1#2;1#2;26] 1 = Some [0;0;1;1]%nat.
 Proof. split; [|split; [|split]].
   - apply ward_check_sound. vm_compute. reflexivity.
